@@ -536,5 +536,6 @@ theorem step_frame (t : Term.T) (tok : Term.Tok) (h1 : tok ≠ .decsc) (h2 : tok
   | cursorShape n => exact rframe_one ⟨rfl, rfl, rfl, fun _ => rfl⟩
   | osc8 p u => exact rframe_one ⟨rfl, rfl, rfl, fun _ => rfl⟩
   | ris => exact absurd rfl h5
+  | ignored => exact rframe_one (TFrame.refl t)
 
 end VaxisModel.Lemmas.EmuRefine
